@@ -16,7 +16,7 @@ RULE = ("random proper MDP specs with uniform action sets (flagged absorbing sta
         "rewards of either sign, inferred state list) x sample thresholds 1-5 x episodes 1-40 x tolerance "
         "{1e-3,1e-6} x seeds. distinct = structural signature incl. threshold/episodes/seed; non-trivial = some "
         "pair became known AND some pair stayed unknown, or >=5 experienced steps.")
-ASSUMPTIONS = ["rmax is taken from np.max(mdp.reward_matrix) (the algorithm's own asserted precondition)",
+ASSUMPTIONS = ["rmax = maximum of the model's reward table computed from the spec (the algorithm asserts rmax == np.max(mdp.reward_matrix))",
                "empirical model is rebuilt from the listener-recorded experience (first m samples per pair)"]
 
 
@@ -65,7 +65,10 @@ def run_case(case, rng):
     A = list(mdp.action_list)
     if set(S) != set(sp.states):
         raise Inconclusive("state_list differs from closure (C06's subject)")
-    rmax = float(np.max(mdp.reward_matrix))
+    # the maximum reward of the MODEL (over transitions that can happen; 0 for the empty cells of the table), computed
+    # from the spec and not read back from msdm's own reward matrix
+    from mon.ref import mdp as Rf_
+    rmax = float(Rf_.Arr(sp, states=S, actions=A).R.max())
     m = rng.randint(1, 5)
     episodes = rng.randint(1, 40 if case.tier == "thorough" else 20)
     if sticky:
